@@ -3,7 +3,7 @@
 From Coq Require Import ZArith List Bool Lia Permutation.
 Import ListNotations.
 From XO Require Import ListAux Slots Strides Perm BufOps BufOpsProofs Types Format Check LayoutProofs RoundTrip Update UpdateProofs UpdateSize CExpr CSpec.
-From XO Require Import UpdateFrame.
+From XO Require Import UpdateFrame UpdateAt.
 Open Scope Z_scope.
 
 (* ---------- anatomy of a struct image ---------- *)
@@ -43,13 +43,6 @@ Proof.
   - rewrite (dpairs_cons_dyn f e fs es Es), !len_cons, IH by lia. reflexivity.
 Qed.
 
-Lemma In_dpairs : forall fs es i f e, nth_error fs i = Some f -> nth_error es i = Some e -> is_static f = false -> In (f, e) (dpairs fs es).
-Proof.
-  induction fs as [|f0 fs IH]; intros es i f e Hf He Hs; [destruct i; discriminate|].
-  destruct es as [|e0 es]; [destruct i; discriminate|]. destruct i as [|i]; cbn in Hf, He.
-  - inversion Hf; inversion He; subst. rewrite (dpairs_cons_dyn f e fs es Hs). left. reflexivity.
-  - destruct (is_static f0) eqn:E0; [rewrite (dpairs_cons_static f0 e0 fs es E0)|rewrite (dpairs_cons_dyn f0 e0 fs es E0); right]; eapply IH; eassumption.
-Qed.
 Lemma dpairs_prefix : forall fs es i, dpairs (firstn i fs) (firstn i es) = firstn (length (dpairs (firstn i fs) (firstn i es))) (dpairs fs es).
 Proof.
   induction fs as [|f fs IH]; intros es i; [destruct i; reflexivity|]. destruct es as [|e es]; [destruct i; reflexivity|].
@@ -75,16 +68,6 @@ Variable m : mem.
 Variable base : Z.
 Variable ix : nat -> Z.
 Definition ld (z : Z) : Z := rd64 m (base + z).
-
-(* offset of field i inside the image of a struct (pure arithmetic on image lengths) *)
-Definition field_off (fs : list ty) (es : list (list cell)) (i : nat) : Z :=
-  let sb := sumz (psz (spairs (firstn i fs) (firstn i es))) in
-  if len (dpairs fs es) =? 0 then sb
-  else match nth_error fs i with
-       | Some f => if is_static f then 8 + sb
-                   else 8 + sumz (psz (spairs fs es)) + 8 * (len (dpairs fs es) - 1) + sumz (psz (dpairs (firstn i fs) (firstn i es)))
-       | None => 0
-       end.
 
 Lemma field_sits fs vs es o i f w e cur :
   enc_list fs vs = Some es -> sits (enc_struct fs es) m o -> len (enc_struct fs es) < 2^62 ->
